@@ -205,8 +205,15 @@ impl<F: FixedChannelRegion> RegionHandler for FixedChannelPlan<F> {
                 // or ChannelMask in the LinkADRReq in Data Frame.
                 // If it has not been reset yet, we continue to use the bias for the data frames.
                 // We hope to acquire ChannelMask via LinkADRReq.
-                if self.join_channels.has_bias_and_not_exhausted() {
+                // The bias is only a preference: a channel the mask disables (a mask that
+                // survived a re-join without CFList) is never used.
+                let biased = if self.join_channels.has_bias_and_not_exhausted() {
                     let channel = self.join_channels.get_next_channel(rng);
+                    self.channel_mask.is_enabled(channel.into()).unwrap().then_some(channel)
+                } else {
+                    None
+                };
+                if let Some(channel) = biased {
                     let dr = if channel < 64 {
                         DR::_0
                     } else {
